@@ -813,6 +813,15 @@ def byteorder_rw(c):
                     c.st.sys.add_range(e_, lo_, hi_)
                     c.it.purefun[nm_] = set(part[0][2].t)
                     return [(c.st, Num(e_))]
+            if n <= 8 and "BigEndian" in c.name:
+                # the window straddles several known pieces: the number is assembled from their bytes (a known function of them)
+                from absint.models_content import bytes_of_window
+                bs = bytes_of_window(c, d, n)
+                if bs is not None:
+                    acc = Lin.const(0)
+                    for k_, bv in enumerate(bs):
+                        acc = acc + bv.scale(1 << (8 * (n - 1 - k_)))
+                    return [(c.st, Num(acc))]
         return [(c.st, c.top_ret())]
     dst = c.deref(c.args[0])
     if isinstance(dst, Seq) and dst.view is not None and str(dst.view[0]).startswith("@"):
